@@ -1,5 +1,6 @@
 import Cutadapt.Proofs.KmerShiftAnd
 import Cutadapt.Proofs.KmerChunks
+import Cutadapt.Proofs.KmerLevels
 import Cutadapt.Proofs.KmerPigeonhole
 import Cutadapt.Proofs.LocateSpec
 /-! From the tables of `create_positions_and_kmers` to the verdict of `kmers_present`: the chunks of the whole adapter are
@@ -288,37 +289,13 @@ theorem foldl_inv {P : β → Prop} (f : β → α → β) (l : List α) (b : β
   | nil => exact hb
   | cons a l ih => exact ih (f b a) (hstep b a hb)
 
-theorem backSets_start_neg (adapter : Bytes) (mo : Nat) (thr : Nat → Nat) (hmo : 1 ≤ mo) :
-    ∀ s ∈ createBackOverlapSearchsets adapter mo thr, s.start < 0 := by
-  have := foldl_inv (P := fun st : Nat × List SearchSet => 1 ≤ st.1 ∧ ∀ s ∈ st.2, s.start < 0)
-    (backStep adapter) (errorLengths thr adapter.length) (mo, []) ⟨hmo, by simp⟩
-    (by
-      rintro ⟨ml, sets⟩ ⟨me, len⟩ ⟨h1, h2⟩
-      simp only [backStep]
-      split
-      · exact ⟨h1, h2⟩
-      · rename_i hle
-        simp only at hle h1
-        refine ⟨by omega, ?_⟩
-        intro s hs
-        rcases List.mem_append.mp hs with hs | hs
-        · split at hs
-          · rcases List.mem_append.mp hs with hs | hs
-            · exact h2 s hs
-            · simp only [List.mem_map, List.mem_range'_1] at hs
-              obtain ⟨i, ⟨hi, _⟩, rfl⟩ := hs
-              simp only; omega
-          · exact h2 s hs
-        · simp at hs; subst hs; simp only; omega)
-  exact this.2
-
-theorem searchSets_zero_none (adapter : Bytes) (mo : Nat) (thr : Nat → Nat) (b f : Bool) (hmo : 1 ≤ mo)
-    (s : SearchSet) (hs : s ∈ searchSets adapter mo thr b f true) (h0 : s.start = 0) (hn : s.stop = none) :
+theorem searchSets_zero_none (adapter : Bytes) (mo : Nat) (thr : Nat → Nat) (b f ind : Bool) (hmo : 1 ≤ mo)
+    (s : SearchSet) (hs : s ∈ searchSets adapter mo thr b f true ind) (h0 : s.start = 0) (hn : s.stop = none) :
     s.kmers = kmerChunks adapter (thr adapter.length + 1) := by
   simp only [searchSets, List.mem_append] at hs
   rcases hs with (hs | hs) | hs
   · split at hs
-    · have := backSets_start_neg adapter mo thr hmo s hs; omega
+    · have := backSets_start_neg adapter mo thr ind hmo s hs; omega
     · simp at hs
   · split at hs
     · simp only [List.mem_map] at hs
@@ -328,13 +305,13 @@ theorem searchSets_zero_none (adapter : Bytes) (mo : Nat) (thr : Nat → Nat) (b
   · simp at hs; subst hs; rfl
 
 /-- the entry `(0, None, …)` of `create_positions_and_kmers(…, internal=True)` holds exactly the chunks of the whole adapter -/
-theorem entry_zero_none_iff {adapter : Bytes} {mo : Nat} {thr : Nat → Nat} {b f : Bool} {entries : List Entry}
-    (h : createPositionsAndKmers adapter mo thr b f true = .ok entries) (hmo : 1 ≤ mo) (k : Bytes) :
+theorem entry_zero_none_iff {adapter : Bytes} {mo : Nat} {thr : Nat → Nat} {b f ind : Bool} {entries : List Entry}
+    (h : createPositionsAndKmers adapter mo thr b f true ind = .ok entries) (hmo : 1 ≤ mo) (k : Bytes) :
     (∃ e ∈ entries, e.start = 0 ∧ e.stop = none ∧ k ∈ e.kmers) ↔ k ∈ kmerChunksList adapter (thr adapter.length + 1) := by
   rw [removeRedundant_zero_none h k, ← mem_kmerChunks]
   constructor
   · rintro ⟨s, hs, h0, hn, hk⟩
-    rw [← searchSets_zero_none adapter mo thr b f hmo s hs h0 hn]; exact hk
+    rw [← searchSets_zero_none adapter mo thr b f ind hmo s hs h0 hn]; exact hk
   · intro hk
     exact ⟨⟨0, none, kmerChunks adapter (thr adapter.length + 1)⟩, by simp [searchSets], rfl, rfl, hk⟩
 
@@ -382,8 +359,8 @@ theorem entryPresent_of_occurs (wr wq : Bool) (me : MaskEntry) (hs : me.start = 
   exact (shiftAnd_correct (kmerMatches wr wq) me.words hne hlen read).mpr ⟨k, hk, i, hocc⟩
 
 /-- if a chunk of the whole adapter occurs in the sequence handed to `kmers_present`, the finder says yes -/
-theorem kmersPresent_of_chunk {adapter : Bytes} {mo : Nat} {thr : Nat → Nat} {b f : Bool} {entries : List Entry}
-    (h : createPositionsAndKmers adapter mo thr b f true = .ok entries) (hmo : 1 ≤ mo)
+theorem kmersPresent_of_chunk {adapter : Bytes} {mo : Nat} {thr : Nat → Nat} {b f ind : Bool} {entries : List Entry}
+    (h : createPositionsAndKmers adapter mo thr b f true ind = .ok entries) (hmo : 1 ≤ mo)
     (hthr : thr adapter.length + 1 ≤ adapter.length)
     {ms : List MaskEntry} (hms : mkFinder entries = some ms) (wr wq : Bool) (read beyond : Bytes)
     (k : Bytes) (hk : k ∈ kmerChunksList adapter (thr adapter.length + 1)) (i : Nat)
